@@ -1,7 +1,7 @@
 SPECIFICATION Spec
-CONSTANT Cfg <- MCCfg32q2
-CONSTANT MinDem = 0
-CONSTANT MaxDem = 2
+CONSTANT Cfg <- MCCfg33
+CONSTANT MinDem = 1
+CONSTANT MaxDem = 3
 INVARIANT Protocol
 INVARIANT MaskSound
 INVARIANT MaskShape
